@@ -115,6 +115,38 @@ def _call_name(node):
     return None
 
 
+def value_wrapper_tie(src):
+    """shape of the tail of 2.x `generate_value` that `generateValueV2R` models: every value the action returns is the result of ONE
+    `literal_eval(...)` call inside a `try` whose handlers raise, and passes `if not _is_plain_value(<it>): raise` before the (only) return"""
+    tree = ast.parse(src)
+    guard = next((n for n in tree.body if isinstance(n, ast.FunctionDef) and n.name == "_is_plain_value"), None)
+    if guard is None:
+        return "module function `_is_plain_value` is gone"
+    fn = next((n for n in ast.walk(tree) if isinstance(n, ast.AsyncFunctionDef) and n.name == "generate_value"), None)
+    if fn is None:
+        return "`generate_value` is gone"
+    nodes = [n for n in ast.walk(fn)]
+    rets = [n for n in nodes if isinstance(n, ast.Return)]
+    if len(rets) != 1 or not isinstance(rets[0].value, ast.Name):
+        return f"`generate_value` has {len(rets)} return statements / returns an expression (model: one `return <the literal>`)"
+    x = rets[0].value.id
+    assigns = [n for n in nodes if isinstance(n, (ast.Assign, ast.AugAssign, ast.AnnAssign, ast.NamedExpr)) and any(isinstance(t, ast.Name) and t.id == x for t in ast.walk(n.targets[0] if isinstance(n, ast.Assign) else n.target))]
+    if len(assigns) != 1 or not (isinstance(assigns[0], ast.Assign) and isinstance(assigns[0].value, ast.Call) and isinstance(assigns[0].value.func, ast.Name) and assigns[0].value.func.id == "literal_eval"):
+        return f"the returned variable `{x}` is assigned {len(assigns)} times / not from a single `literal_eval(...)` call"
+    a = assigns[0]
+    tries = [n for n in nodes if isinstance(n, ast.Try) and a in n.body]
+    if len(tries) != 1 or not tries[0].handlers or not all(any(isinstance(s, ast.Raise) for s in h.body) for h in tries[0].handlers) or any(h.type is not None and ast.unparse(h.type) != "Exception" for h in tries[0].handlers):
+        return "`literal_eval` is not inside `try: … except Exception: raise …`"
+    guards = [n for n in fn.body if isinstance(n, ast.If) and ast.unparse(n.test) == f"not _is_plain_value({x})" and any(isinstance(s, ast.Raise) for s in n.body) and not n.orelse]
+    if len(guards) != 1 or not (tries[0].lineno < guards[0].lineno < rets[0].lineno) or rets[0] not in fn.body:
+        return f"no top-level `if not _is_plain_value({x}): raise …` between the `literal_eval` and the return"
+    # nothing may touch the literal between the guard and the return
+    between = [s for s in fn.body if guards[0].lineno < s.lineno < rets[0].lineno]
+    if between:
+        return f"statements between the guard and the return (line {between[0].lineno}): the returned value may not be the guarded one"
+    return None
+
+
 def static_tie():
     """Every call of a template renderer in the two generation modules, with the provenance of its argument.
     Expected: v1 generation.py — exactly one `_render_string` call, inside generate_bot_message, in the branch
@@ -169,6 +201,11 @@ def static_tie():
         for node in ast.walk(fn):
             if isinstance(node, ast.Call) and _call_name(node) in ("_render_string", "from_string", "render", "Template"):
                 rs2.append((fn.name, _call_name(node), ast.unparse(node.args[0]) if node.args else ""))
+    # the wrapper around literal_eval that `generateValueV2R` models (the guard's own behaviour is tied by differential on every literal)
+    with open(os.path.join(E.REPO, "nemoguardrails/actions/v2_x/generation.py")) as f:
+        wt = value_wrapper_tie(f.read())
+    if wt:
+        problems.append("2.x GenerateValueAction: " + wt + " (Models/LlmGen.lean `generateValueV2R` models: try literal_eval / except raise; if not _is_plain_value: raise; return)")
     if rs2 != [("generate_flow", "_render_string", "textwrap.dedent(docstring)")]:
         problems.append("v2 render call sites changed: expected only generate_flow: _render_string(textwrap.dedent(docstring)); found " + str(rs2))
     return problems
@@ -1441,7 +1478,7 @@ def run_impl(case):
         # 2.x: the state returned with every turn is checked (cheaply on every turn; restored after the last turn of
         # every conversation that generates a value and of a fixed eighth of the others; the other turns' states are restored by the next turn)
         full = case["mode"] in ("v2_value", "v2_quote", "v2_value2") or zlib.crc32(json.dumps(case, sort_keys=True).encode()) % 8 == 0
-        return E.run_conversation(case["mode"], case["turns"], case["llm"], case["fallback"], context=ctx, api=case.get("api"), full_state_check=full)
+        return E.run_conversation(case["mode"], case["turns"], case["llm"], case["fallback"], context=ctx, api=case.get("api"), full_state_check=full, fresh=bool(case.get("fresh")))
     if k == "asm":
         return asm_impl(case)
     raise ValueError(k)
@@ -1950,6 +1987,11 @@ def shrink(case):
         for i in range(len(case["events"])):
             yield dict(case, events=case["events"][:i] + case["events"][i + 1:])
     elif case["kind"] == "e2e":
+        if case.get("value") and not case.get("fresh"):
+            # value conversations: shrink on a NEW LLMRails instance, so that the reported input does not depend on what the worker's
+            # shared instance saw before (a failure that needs the second use of something keeps the turns that provide it)
+            case = dict(case, fresh=True)
+            yield case
         if case.get("api"):
             yield {kk: vv for kk, vv in case.items() if kk != "api"}
         if len(case["turns"]) > 1:
